@@ -6,7 +6,7 @@ Tie:   the real yaclib::Strand (FIBER backend) over an instrumented manual execu
        strand, to the model's events and replayed through Strand.run inside Coq: the model must accept every event
        with the observed values and predict the observed Call order / Drop order / quiescence.
 Oracle (property text only) runs inside the harness on every execution."""
-import concurrent.futures, json, os, re, time
+import concurrent.futures, json, os, re, shutil, time
 import vlib, runner
 
 HARNESS = os.path.join(vlib.VERIF, "harness", "h_c07.cpp")
@@ -241,7 +241,29 @@ def main(ck):
         "YACLIB_VERIF hooks in the fault layer; FIBER scheduler and fiber atomics (C17-C19 are about those)",
     ]
     ck.prove("props/Properties_C07.v", ["model/StrandObs.vo"])
-    exe, b = vlib.compile_harness("F", [HARNESS], "c07")
+    exe0, b = vlib.compile_harness("F", [HARNESS], "c07")
+    # private copy: the shared build cache prunes old trees while other checks run
+    priv = "/var/tmp/c07.run.%d" % os.getpid()
+    os.makedirs(priv, exist_ok=True)
+    exe = os.path.join(priv, "h_c07")
+    shutil.copy2(exe0, exe)
+    try:
+        explore_and_compare(ck, exe)
+    finally:
+        shutil.rmtree(priv, ignore_errors=True)
+
+
+def opts_of(args):
+    """the options of an exploration that a replay must repeat (they decide where choices are offered)"""
+    keep, i = [], 0
+    while i < len(args):
+        if args[i] in ("--pb", "--weak", "--param", "--max-choices"):
+            keep += [args[i], args[i + 1]]
+        i += 1
+    return keep
+
+
+def explore_and_compare(ck, exe):
     P = plan(ck)
     t0 = time.time()
     results = []
@@ -287,12 +309,10 @@ def main(ck):
     ck.cov["explore_wall_s"] = round(time.time() - t0, 1)
     for t in traces:
         if t["fail"]:
-            extra = [a for a in t["args"] if a.startswith("yields=")]
-            weak = t["args"][t["args"].index("--weak") + 1] if "--weak" in t["args"] else "0"
             ck.hits.append(dict(what="%s: %s" % (t["scenario"], t["fail"]),
                                 key=t["scenario"].split("/")[0] + ":" + re.sub(r"\d+\.\d+", "J", t["fail"])[:50],
                                 replay=dict(harness="h_c07", scenario=t["scenario"], choices=t["choices"],
-                                            trace=t["trace"], weak=weak, params=extra)))
+                                            trace=t["trace"], opts=opts_of(t["args"]))))
     # ---- correspondence
     terms, metas = [], []
     seen = set()
@@ -374,9 +394,7 @@ def replay(ck, path):
         print("nothing to replay: %s" % json.dumps(d)[:2000])
         return 0
     exe, b = vlib.compile_harness("F", [HARNESS], "c07")
-    args = ["--mode", "replay", "--exact", rp["scenario"], "--choices", rp["choices"], "--weak", str(rp.get("weak", "0"))]
-    for p in rp.get("params", []):
-        args += ["--param", p]
+    args = ["--mode", "replay", "--exact", rp["scenario"], "--choices", rp["choices"]] + list(rp.get("opts", []))
     rows, out, err, rc = runner.run_harness(exe, args)
     print(out)
     bad = any(r.get("fail") for r in rows if "trace" in r)
